@@ -134,14 +134,18 @@ def listLen (db : DB) (k : Bytes) (now : Int) : Res :=
 def rangePrecheck (a b : Int) : Bool :=
   decide (a > b) && ((decide (a > 0) && decide (b > 0)) || (decide (a < 0) && decide (b < 0)))
 
-/-- the `bounds` CTE: a negative bound is `len + bound`; `len` is NULL when the key is missing -/
+/-- the `bounds` CTE: a negative bound is `coalesce(len, 0) + bound` (`len` is NULL when the key is missing) -/
 def bound (len : Option Int) (x : Int) : Option Int :=
-  if x < 0 then len.map (· + x) else some x
+  if x < 0 then some (len.getD 0 + x) else some x
 
-/-- rows kept by `limit start, stop - start + 1`; `none` = `LIMIT NULL` → datatype mismatch -/
+/-- rows kept by `limit max(0, start), max(0, stop - max(0, start) + 1)`: the start is clamped to the head
+of the list, an empty or inverted window selects nothing, a stop beyond the tail is harmless. (`none` —
+a NULL in `LIMIT` — can no longer arise; the branch stays for the shape of the callers.) -/
 def rangeWindow {α} (len : Option Int) (a b : Int) (rows : List α) : Option (List α) :=
   match bound len a, bound len b with
-  | some s, some e => some (sqlLimit s (e - s + 1) rows)
+  | some s0, some e =>
+    let s := max 0 s0
+    some (sqlLimit s (max 0 (e - s + 1)) rows)
   | _, _ => none
 
 def listRange (db : DB) (k : Bytes) (a b : Int) (now : Int) : Res :=
